@@ -37,7 +37,19 @@ type conn struct {
 	msg    *Message
 	server *Server
 	rcv    chan string
+	msgs   chan Message
 	i      int
+}
+
+// deliver hands a received mail to the owner of this connection, if there is one, and to the
+// server's handler otherwise
+func (c *conn) deliver(msg Message) {
+	if c.msgs != nil {
+		c.msgs <- msg
+		return
+	}
+
+	serverHandler{c.server}.Serve(msg)
 }
 
 func (c *conn) newMessage() *Message {
@@ -147,7 +159,7 @@ func mailFromState(c *conn) stateFn {
 
 		c.PrintfLine("250 Ok : queued as +%x", hasher.Sum(nil))
 
-		serverHandler{c.server}.Serve(*c.msg)
+		c.deliver(*c.msg)
 
 		c.msg = c.newMessage()
 		return loopState
@@ -162,7 +174,7 @@ func mailFromState(c *conn) stateFn {
 
 		c.PrintfLine("250 Ok : queued as +%x", hasher.Sum(nil))
 
-		serverHandler{c.server}.Serve(*c.msg)
+		c.deliver(*c.msg)
 
 		c.msg = c.newMessage()
 		return loopState
